@@ -28,7 +28,7 @@ Adv == l' = l + 1
 If(c, name) == IF c THEN {name} ELSE {}
 
 VerdictOf ==
-  [ C14 |-> {"contexts_differ", "lost_failure", "failed_not_visible", "cleanup_lost", "cleanup_twice", "data_race", "context_dead_during_call"},
+  [ C14 |-> {"contexts_differ", "lost_failure", "failed_not_visible", "cleanup_lost", "cleanup_twice", "data_race", "context_dead_during_call", "hangs"},
     C15 |-> {"data_race", "draws_differ_when_shared", "shared_check_crashed"} ]
 Verdicts == IF Property = "ALL" THEN UNION { VerdictOf[p] : p \in DOMAIN VerdictOf } ELSE VerdictOf[Property]
 
@@ -87,10 +87,13 @@ Solo == /\ Is("solo") /\ Adv
         /\ viol' = viol \cup If(Ev.key \in DOMAIN solo /\ solo[Ev.key] # Ev.draws /\ ~Ev.crashed, "draws_differ_when_shared")
         /\ UNCHANGED <<scen, ctxs, regs, runs, sig, gfailed, open, solo>>
 
-Handled == {"scen.begin", "scen.end", "h.once.begin", "inv.end", "ctx", "call", "failed.read", "cleanup.reg", "cleanup.run", "h.once.end", "race",
+Handled == {"hang", "scen.begin", "scen.end", "h.once.begin", "inv.end", "ctx", "call", "failed.read", "cleanup.reg", "cleanup.run", "h.once.end", "race",
             "solo", "shared"}
+\* the watchdog saw an invocation that did not end (e.g. a deadlock between the check and a goroutine of the property)
+Hang == /\ Is("hang") /\ Adv /\ viol' = viol \cup {"hangs"} /\ UNCHANGED <<scen, ctxs, regs, runs, sig, gfailed, open, solo>>
+
 Other == /\ l <= Len(Trace) /\ Trace[l].ev \notin Handled /\ Adv /\ UNCHANGED <<scen, viol, ctxs, regs, runs, sig, gfailed, open, solo>>
-Next == ScenBegin \/ ScenEnd \/ OnceBegin \/ InvEnd \/ Ctx \/ Call \/ FailedRead \/ Reg \/ Run \/ OnceEnd \/ Race \/ Solo \/ Shared \/ Other
+Next == Hang \/ ScenBegin \/ ScenEnd \/ OnceBegin \/ InvEnd \/ Ctx \/ Call \/ FailedRead \/ Reg \/ Run \/ OnceEnd \/ Race \/ Solo \/ Shared \/ Other
 Spec == Init /\ [][Next]_vars
 
 HW == /\ TLCSet(1, IF l > TLCGet(1) THEN l ELSE TLCGet(1))
